@@ -61,18 +61,34 @@ where
         Ok(w) => w,
         Err(v) => return v,
     };
+    // every polynomial of the configuration was committed in one call; each is opened on its own and judged
+    // against its own size
+    for pi in 0..w.lps.len() {
+        let v = lincode_one::<S>(&mut w, cfg, pi, distance, sec, rho, wf);
+        if !matches!(v, Verdict::Hold) {
+            return v;
+        }
+    }
+    Verdict::Hold
+}
+
+fn lincode_one<S: Sch>(w: &mut World<S>, cfg: &Cfg, pi: usize, distance: (usize, usize), sec: usize, rho: (usize, usize), wf: bool) -> Verdict
+where
+    CommOf<S>: LinCommParts,
+    ProofOf<S>: CanonicalSerialize,
+{
     let sp0 = sponge(cfg, 1);
     let mut sp_p = sp0.clone();
-    let proof = match w.open(&[0], 0, &mut sp_p) {
+    let proof = match w.open(&[pi], 0, &mut sp_p) {
         Ok(p) => p,
         Err(e) => return Verdict::viol(&format!("open-err:{}", e), e.clone()),
     };
-    let (n_rows, n_cols, n_ext, _) = w.comms[0].commitment().parts();
-    let (nc, _) = count(w.comms[0].commitment());
+    let (n_rows, n_cols, n_ext, _) = w.comms[pi].commitment().parts();
+    let (nc, _) = count(w.comms[pi].commitment());
     if nc != 1 {
         return Verdict::viol("commitment-size", format!("commitment serializes {} field elements besides its dimensions (expected: the root only)", nc));
     }
-    let big_n = w.coeffs[0].len().max(1);
+    let big_n = w.coeffs[pi].len().max(1);
     if n_rows * n_cols < big_n || n_rows * n_cols >= 4 * big_n.next_power_of_two() {
         return Verdict::viol("matrix-shape", format!("{} coefficients in a {} x {} matrix", big_n, n_rows, n_cols));
     }
